@@ -26,12 +26,11 @@ def obs_case(ctx, res, args, label):
         raise vlib.Broken("no record usable for the binding self-test")
     with open(path, "a") as f:
         f.write(json.dumps(bad_self, ensure_ascii=False) + "\n")
-    out = ctx.tlc("Obs_Case", "Obs.cfg", env_extra={"VERIF_OBS": path}, timeout=3000)
-    tags = out["tags"]
+    tags, dropped = ctx.tlc_obs("Obs_Case", path, [r["id"] for r in recs] + [-1], label)
     if tags.get("WFERR"):
         raise vlib.Broken(f"generator produced ill-formed tables: {tags['WFERR'][:2]}")
     recsum = {r["id"]: r for r in tags.get("REC", [])}
-    if len(recsum) != len(recs) + 1:
+    if len(recsum) + len(dropped) != len(recs) + 1:
         raise vlib.Broken(f"TLC checked {len(recsum)} of {len(recs)+1} records")
     if not any(b["id"] == -1 and b["rule"] == "case.input-flip" for b in tags.get("BAD", [])):
         raise vlib.Broken("binding self-test failed: a corrupted family was accepted by Obs_Case")
